@@ -14,7 +14,9 @@ RULE = ("case = typed ground Boolean SMT-LIB term (depth <= 4) over every operat
         "regex metacharacters, non-ASCII/astral characters, NUL, signed and zero-padded numerals, text that looks like a \\u{..} "
         "escape; integer literals -20..10^10 incl. zero divisors; str.to.int arguments are numerals [+-]?[0-9]+ by construction. "
         "Three observation points per case: is_valid(ground term); SMTFormula(term, vars).substitute_expressions({var: closed tree}); "
-        "evaluate(concrete-syntax text, tree, grammar) with one tree node per variable.  Oracle = Z3 itself on the ground term "
+        "evaluate(concrete-syntax text, tree, grammar) with one tree node per variable; half of the cases add a HISTORY: "
+        "the same formula objects are judged on a second instantiation whose trees share node ids with the first (as "
+        "replace_path / repair / mutate produce them) and again on the first.  Oracle = Z3 itself on the ground term "
         "(simplify, else solver on the negation, 10 s), str.to.int read sign-aware.  non-trivial = term has an operator beyond "
         "=/literals and Z3 decided it; distinct by ground-term text.  labels op:<name> count terms exercising each operator")
 ASSUMPTIONS = ["Z3 4.11.2 (simplify; solver on the negation with 10 s timeout) is the reference; undecided terms are inconclusive; "
